@@ -11,6 +11,8 @@ package main
 // source ops (build a store through the real stack, genesis is always there):
 //   a  <ver> <merkle> <ts> <bits> <nonce>      Chains.Add of a header on top of the current longest tip
 //   d  <ver> <merkle> <ts> <bits> <nonce>      same, but inserted directly (CreateHeader + AddHeaderToDatabase)
+//   z  <seed>                                   the following run of d headers reaches the table in a shuffled order
+//                                               (rowid order differs from height order: the ORDER BY of the export matters)
 //   f  <back> <ver> <merkle> <ts> <bits> <nonce>  Chains.Add of a sibling of the longest-chain block <back> below the tip
 //                                               (skipped when it would have more cumulated work than the tip)
 //   e  <ver> ...                                Chains.Add of a child of the last header added by f/e (may reorganise)
@@ -37,6 +39,7 @@ import (
 	"fmt"
 	"io"
 	"math/big"
+	"math/rand"
 	"os"
 	"path/filepath"
 	"sort"
@@ -141,7 +144,7 @@ func c17Ops(line string) []string {
 func c17IsSrcOp(op string) bool {
 	w := strings.Fields(op)
 	switch w[0] {
-	case "a", "d", "f", "e", "o", "oc":
+	case "a", "d", "f", "e", "o", "oc", "z":
 		return true
 	}
 	return false
@@ -224,10 +227,37 @@ func (h *c17H) buildSource(ops []string) (*c17Src, error) {
 		return res
 	}
 	var lastFork, lastOrphan, direct *domains.BlockHeader
+	var pending []domains.BlockHeader
+	shuffle := int64(0)
+	flush := func() error {
+		if shuffle != 0 {
+			rand.New(rand.NewSource(shuffle)).Shuffle(len(pending), func(i, j int) { pending[i], pending[j] = pending[j], pending[i] })
+		}
+		for _, nh := range pending {
+			if err := s.Repo.Headers.AddHeaderToDatabase(nh); err != nil {
+				return err
+			}
+		}
+		pending = nil
+		shuffle = 0
+		return nil
+	}
 	for _, op := range ops {
 		w := strings.Fields(op)
 		kind := w[0]
 		args := w[1:]
+		if kind != "d" {
+			if err := flush(); err != nil {
+				s.Close()
+				return nil, err
+			}
+		}
+		if kind == "z" {
+			if len(args) == 1 {
+				shuffle, _ = strconv.ParseInt(args[0], 10, 64)
+			}
+			continue
+		}
 		back := 0
 		if kind == "f" {
 			if len(args) < 1 {
@@ -263,10 +293,7 @@ func (h *c17H) buildSource(ops []string) (*c17Src, error) {
 			bs := f.src(direct.Hash)
 			hash := hasher.BlockHash(&bs)
 			nh := domains.CreateHeader(&hash, &bs, direct)
-			if err := s.Repo.Headers.AddHeaderToDatabase(nh); err != nil {
-				s.Close()
-				return nil, err
-			}
+			pending = append(pending, nh)
 			direct = &nh
 		case "f":
 			tip, err := longestTip()
@@ -313,6 +340,10 @@ func (h *c17H) buildSource(ops []string) (*c17Src, error) {
 				lastOrphan = r
 			}
 		}
+	}
+	if err := flush(); err != nil {
+		s.Close()
+		return nil, err
 	}
 	rows, err := s.DumpHeaders()
 	if err != nil {
